@@ -949,7 +949,7 @@ def run(rep, tier, seed):
         rep.cov['accepted_programs'] = len(accepted)
         rep.cov['runs_of_accepted_programs'] = sum(1 for m in run_meta if m[0] == 'C15.run')
         rep.cov['plain_python_runs'] = sum(1 for m in run_meta if m[0] == 'C15.exec')
-        rep.cov['exhaustive'] = ex_count
+        rep.cov['exhaustive_levels'] = ex_count
         rep.cov['timing_s'] = {'generate': round(t_gen, 1), 'front_end': round(t_front, 1), 'total': round(time.time() - t0, 1)}
         rep.cov['rule'] = (
             'environments: each corpus program and each program of the smallest exhaustive level is rendered under 7 naming '
